@@ -149,15 +149,13 @@ func (L *builtLog) encodeAll(serName string) error {
 // after accepting entries 0..i-1 of the untouched log (its state is the three
 // exported fields PrevHash / HashBuffer / Index).
 func (L *builtLog) stateBefore(i int) *auditlog.Validator {
-	v := auditlog.NewValidator(L.keys.edVer, L.keys.mlVer)
 	if i == 0 {
-		return v
+		return auditlog.NewValidator(L.keys.edVer, L.keys.mlVer)
 	}
-	v.Index = i
-	v.PrevHash = L.entries[i-1].Hash
 	blk := L.logHashes[L.blockStart[i]:L.logsBefore[i]]
-	v.HashBuffer = append(make([][]byte, 0, len(blk)), blk...)
-	return v
+	// cap == len: the validator's append copies instead of writing into our array
+	return &auditlog.Validator{Ed25519Verifier: L.keys.edVer, MlDsa87Verifier: L.keys.mlVer,
+		Index: i, PrevHash: L.entries[i-1].Hash, HashBuffer: blk[:len(blk):len(blk)]}
 }
 
 // stateEquals reports whether v is in the baseline state "before entry k".
